@@ -212,7 +212,12 @@ def gen_pw(rng):
     """A Piecewise: several atomic values without else (printed as a RUN of logical IFs), or shapes printed as one node."""
     cov = rng.choice(["APGR", "FA1", "VISI"])
     k = rng.randint(2, 4)
-    kind = rng.choice(["multi-if", "multi-if", "multi-if", "block-else", "block-expr", "single"])
+    kind = rng.choice(["multi-if", "multi-if", "multi-if", "block-else", "block-expr", "single", "nested-bool"])
+    if kind == "nested-bool":
+        a, b, c = f"Eq(FA1, {rng.randint(0, 1)})", f"Eq(APGR, {rng.randint(1, 4)})", f"Eq(VISI, {rng.randint(1, 3)})"
+        cond = rng.choice([f"And({a}, Or({b}, {c}))", f"Or({a}, And({b}, {c}))", f"Not(Or({a}, {b}))", f"And({a}, {b}, {c})",
+                           f"Or(And({a}, {b}), And(Not({a}), {c}))", f"And(Or({a}, {b}), Or({b}, {c}))", f"And({a}, APGR < 5)"])
+        return f"Piecewise(({rng.choice(['1', 'THETA(3)'])}, {cond}), ({rng.choice(['0', 'THETA(4)', 'CL'])}, True))"
     vals = [rng.choice(["1", "THETA(%d)" % rng.randint(1, 9), "CL", "0"]) for _ in range(k)]
     if kind == "block-expr":
         vals = ["THETA(%d)*WGT" % rng.randint(1, 9) for _ in range(k)]
@@ -327,6 +332,14 @@ def corpus_cases():
         {"kind": "record", "text": "TVCL = THETA(1)*WGT\n; clearance\nCL = TVCL*EXP(ETA(1))\n\nV = THETA(2)",
          "edits": [[["ins", 1, "CLAPGR", "Piecewise((1, Eq(APGR, 1)), (THETA(3), Eq(APGR, 2)), (THETA(4), Eq(APGR, 3)))"]],
                    [["renumber", 2]], [["del", 1]]], "seed": 19},
+        # fixed a4b7c03: an Or of three categories was printed with two operands
+        {"kind": "record", "text": "X1 = 0\nCL = THETA(1)",
+         "edits": [[["ins", 2, "X1", "Piecewise((THETA(8), Eq(VISI, 1)), (1, Eq(VISI, 2)), (1, Eq(VISI, 3)), (1, Eq(VISI, 4)))"]],
+                   [["ins", 3, "X2", "Piecewise((2, Or(Eq(APGR, 1), Eq(APGR, 2), Eq(APGR, 3), Eq(FA1, 1))), (3, True))"]]], "seed": 21},
+        # known: And(A, Or(B, C)) printed without parentheses
+        {"kind": "record", "text": "X1 = 0\nCL = THETA(1)",
+         "edits": [[["ins", 2, "X1", "Piecewise((1, And(Eq(FA1, 1), Or(Eq(APGR, 1), Eq(APGR, 2)))), (2, True))"]],
+                   [["ins", 3, "X2", "Piecewise((1, Or(Eq(FA1, 1), And(Eq(APGR, 1), Eq(VISI, 2)))), (2, True))"]]], "seed": 22},
         {"kind": "history", "start": "pheno", "ops": [["add_iov", {"occ": "FA1"}], ["add_covariate_effect", {"parameter": "CL", "covariate": "WGT", "effect": "exp", "allow_nested": True}],
                                                         ["remove_iov", {}]], "seed": 20},
     ]
@@ -1417,6 +1430,8 @@ def stmts_equivalent(a_stmts, b_stmts, rng):
     cand = _candidates(*exprs) if exprs else {}
     for _ in range(4 + min(12, 2 * sum(len(v) for v in cand.values()))):
         sub = _point(rng, syms, cand)
+        for t in targets:
+            sub[t] = sympy.Integer(0)     # a variable assigned in the record starts at 0 on both sides (never a free input)
         ea, eb = _seq_eval(a_stmts, sub), _seq_eval(b_stmts, sub)
         for t in sorted(targets, key=str):
             va, vb = ea.get(t), eb.get(t)
@@ -1529,7 +1544,11 @@ def run_record(case, drv):
             if diff_:
                 nary = any(len(c.args) > 2 for st in new if isinstance(st, Assignment)
                            for c in _sy(st.expression).atoms(sympy.Or, sympy.And))
-                mon.append({"cls": "printer-nary-boolean-truncated" if nary else "record-text-differs-from-statements", "what": f"{label}: the record text no longer computes what its "
+                and_of_or = any(isinstance(x, sympy.Or) for st in new if isinstance(st, Assignment)
+                                for c in _sy(st.expression).atoms(sympy.And) for x in c.args)
+                cls_ = ("printer-and-of-or-unparenthesised" if and_of_or else
+                        "printer-nary-boolean-truncated" if nary else "record-text-differs-from-statements")
+                mon.append({"cls": cls_, "what": f"{label}: the record text no longer computes what its "
                             f"statements say: {diff_}; text: {str(newrec)!r}"[:700]})
         alive.extend(newrec.root.children)
         rec, old = newrec, new
